@@ -182,4 +182,91 @@ theorem C20_txroot_binds (node : Bytes → Bytes → Bytes) (xs ys : List Bytes)
 theorem C20_dup_last_same_root (node : Bytes → Bytes → Bytes) (a b c : Bytes) :
     computeMerkleRoot node [a, b, c] = computeMerkleRoot node [a, b, c, c] := rfl
 
+
+/-! ### Witnesses: the as-shipped decoder violates the full statement (these are also the replay lines of the two
+recorded findings), and the hypotheses of the theorems above are satisfiable -/
+
+/-- a key library that knows one key with two encodings: `[4,1,2,3]` (alternative) and `[2,1]` (canonical) -/
+def exKeys : Keys := ⟨fun b => if b = [4, 1, 2, 3] ∨ b = [2, 1] then some [2, 1] else none⟩
+
+/-- unsigned part: height 7, empty consensus payload -/
+def exUnsigned : Bytes := List.replicate 104 0 ++ [7, 0, 0, 0] ++ List.replicate 8 0 ++ [0] ++ List.replicate 20 0
+
+/-- one bookkeeper in the alternative encoding, one signature -/
+def exHdrAlt : Bytes := exUnsigned ++ [1, 4, 4, 1, 2, 3] ++ [1, 2, 0xaa, 0xbb]
+/-- the same header with the canonical encoding of the same key -/
+def exHdrCanon : Bytes := exUnsigned ++ [1, 2, 2, 1] ++ [1, 2, 0xaa, 0xbb]
+/-- bookkeeper count 2^63 (`int(n) < 0`), then signature count 0 -/
+def exHdrWrap : Bytes := exUnsigned ++ [0xff, 0, 0, 0, 0, 0, 0, 0, 0x80] ++ [0]
+
+theorem exAlt_eval : (match parseHeader .asShipped exKeys ⟨exHdrAlt, 0⟩ with
+      | .ok h s' => serHeader h != consumed ⟨exHdrAlt, 0⟩ s' && s'.off == exHdrAlt.length && h.bookkeepers == [[2, 1]]
+      | _ => false) = true := by decide +kernel
+
+theorem exWrap_eval : (match parseHeader .asShipped exKeys ⟨exHdrWrap, 0⟩ with
+      | .ok h s' => serHeader h != consumed ⟨exHdrWrap, 0⟩ s' && s'.off == exHdrWrap.length && h.bookkeepers == []
+      | _ => false) = true := by decide +kernel
+
+theorem exAlt_wf : (⟨exHdrAlt, 0⟩ : Src).wf := ⟨Nat.zero_le _, by decide +kernel⟩
+theorem exWrap_wf : (⟨exHdrWrap, 0⟩ : Src).wf := ⟨Nat.zero_le _, by decide +kernel⟩
+
+/-- **Counterexample 1** (`noncanonical-bookkeeper-key-reencode`): a header with a bookkeeper blob in an alternative
+encoding is accepted and re-encodes to different bytes. -/
+theorem C20_asShipped_counterexample : ¬ C20_full_statement .asShipped := by
+  intro hfull
+  have key := exAlt_eval
+  cases hp : parseHeader .asShipped exKeys ⟨exHdrAlt, 0⟩ with
+  | ok h s' =>
+    rw [hp] at key
+    have := hfull exKeys ⟨exHdrAlt, 0⟩ h s' exAlt_wf hp
+    simp [this] at key
+  | err e => rw [hp] at key; simp at key
+  | panic => rw [hp] at key; simp at key
+
+/-- **Counterexample 2** (`header-list-count-int-wrap-reencode`): all blobs canonical (there are none), but the
+bookkeeper count `2^63` is accepted as "no bookkeepers" and re-encoded as `00`. -/
+theorem C20_asShipped_counterexample_count :
+    ¬ (∀ (K : Keys) (s : Src) (h : Header) (s' : Src), s.wf → parseHeader .asShipped K s = .ok h s' →
+        h.bookkeepers = h.bkRaw → serHeader h = consumed s s') := by
+  intro hfull
+  have key := exWrap_eval
+  cases hp : parseHeader .asShipped exKeys ⟨exHdrWrap, 0⟩ with
+  | ok h s' =>
+    rw [hp] at key
+    obtain ⟨_, post⟩ := header_post_of_ok (s := ⟨exHdrWrap, 0⟩) exWrap_wf hp
+    have hb : h.bookkeepers = [] := by
+      simp only [Bool.and_eq_true, beq_iff_eq] at key
+      exact key.2
+    have hraw : h.bkRaw = [] := by
+      have := post.2.2.2.2.1
+      rw [hb] at this
+      exact List.eq_nil_of_length_eq_zero this.symm
+    have := hfull exKeys ⟨exHdrWrap, 0⟩ h s' exWrap_wf hp (by rw [hb, hraw])
+    simp [this] at key
+  | err e => rw [hp] at key; simp at key
+  | panic => rw [hp] at key; simp at key
+
+/-- non-vacuity of `C20_header_reencode_partial`: a header that satisfies all its hypotheses -/
+example : (match parseHeader .asShipped exKeys ⟨exHdrCanon, 0⟩ with
+      | .ok h s' => h.bookkeepers == h.bkRaw && decide (h.bkCount < two63) && decide (h.sigCount < two63) &&
+          h.sigData == [[0xaa, 0xbb]] && s'.off == exHdrCanon.length && h.u.height == 7
+      | _ => false) = true := by decide +kernel
+
+/-- the sound variant rejects both witnesses (non-canonical blob; count read literally: the next byte is not a key) -/
+example : (match parseHeader .sound exKeys ⟨exHdrAlt, 0⟩, parseHeader .sound exKeys ⟨exHdrWrap, 0⟩ with
+      | .err .invalid, .err .invalid => true
+      | _, _ => false) = true := by decide +kernel
+
+/-- non-vacuity of the block theorems: a block with an empty transaction list (root = zero hash) is accepted -/
+def exHashes : Hashes := ⟨fun t => t.hashInput, fun a b => a ++ b, fun x => x⟩
+def exBlock : Bytes := List.replicate 137 0 ++ [0, 0] ++ [0, 0, 0, 0] ++ [9]
+example : (match parseBlock .asShipped exKeys ⟨fun _ => .error .invalid⟩ exHashes ⟨exBlock, 0⟩ with
+      | .ok b s' => b.txs.isEmpty && s'.off == 143 && b.header.u.txRoot == zeroHash
+      | _ => false) = true := by decide +kernel
+
+/-- duplicate-free lists with the same root and a collision-free node function are equal: a concrete instance with an
+injective `node` (concatenation of 1-byte hashes) where `C20_txroot_binds` yields its first disjunct -/
+example : computeMerkleRoot (fun a b => a ++ b) [[1], [2], [3]] ≠ computeMerkleRoot (fun a b => a ++ b) [[1], [3], [2]] := by
+  decide
+
 end OntVerif.Props.C20
